@@ -3,6 +3,8 @@ use crate::engine::Ctx;
 pub mod c01;
 pub mod c03;
 pub mod c05;
+pub mod c06;
+pub mod c07;
 pub mod c13;
 pub mod c15;
 pub mod c16;
@@ -14,6 +16,8 @@ pub const ALL: &[(&str, RunFn)] = &[
     ("C01", c01::run),
     ("C03", c03::run),
     ("C05", c05::run),
+    ("C06", c06::run),
+    ("C07", c07::run),
     ("C13", c13::run),
     ("C15", c15::run),
     ("C16", c16::run),
